@@ -686,3 +686,294 @@ func ruleShowKeepsLineMatrix(c *eng.Ctx) {
 		c.Check(writes[fn] == "", R, name, fn.Pos(), "leaves the line matrix alone", "a text-showing function writes the text line matrix (it "+writes[fn]+"): the next Td, TD, T*, ' or \" starts from the end of the shown string instead of the start of the line")
 	}
 }
+
+// R4.11 [C04, C01]
+func ruleSectionKindPerSection(c *eng.Ctx) {
+	const R = "R4.11-SECTION-KIND-PER-SECTION"
+	c.Rule(R, "ParseXRef decides for every cross-reference section on its own whether it is a classic table or a cross-reference stream: the branch that picks the sub-parser depends on what this call read at the given offset, never on a field of the parser that an earlier call set. The sections of one file need not be of one kind (a classic file updated by a writer that emits xref streams, and the reverse), and a kind remembered from the newest section sends the older ones to the wrong sub-parser", 2, 0)
+	fn := c.P.Func("core.(*XRefParser).ParseXRef")
+	if fn == nil || len(fn.Params) == 0 {
+		c.Undec(R, "core.(*XRefParser).ParseXRef", token.NoPos, "anchor not found")
+		return
+	}
+	recv := ssa.Value(fn.Params[0])
+	// fields of the parser that some method assigns after construction
+	assigned := map[string]string{}
+	for _, f := range c.P.ModuleFuncs() {
+		if f.Pkg != fn.Pkg || f.Blocks == nil || strings.HasPrefix(f.Name(), "New") {
+			continue
+		}
+		eng.Instrs(f, true, func(in ssa.Instruction) {
+			if st, ok := in.(*ssa.Store); ok {
+				if fr, ok := eng.AsField(st.Addr); ok && strings.HasSuffix(fr.Struct, "core.XRefParser") {
+					assigned[fr.Field] = eng.FuncName(f) + " at " + c.P.Pos(st.Pos())
+				}
+			}
+		})
+	}
+	n := 0
+	for _, ci := range eng.CallsNamed(fn, false, "core.(*XRefParser).parseTraditionalXRef", "core.(*XRefParser).parseXRefStream") {
+		n++
+		key := fmt.Sprintf("core.(*XRefParser).ParseXRef#%s", eng.CalleeName(ci))
+		ifs, _ := eng.DominatingIfs([]*ssa.Function{fn}, ci)
+		bad := ""
+		for _, iff := range ifs {
+			for w := range eng.Slice(iff.Cond, nil) {
+				if fr, ok := eng.LoadOfField(w); ok && addrRoot(w) == recv {
+					if by, is := assigned[fr.Field]; is {
+						if _, isIface := w.Type().Underlying().(*types.Interface); isIface {
+							continue // the reader handle
+						}
+						// a field assigned afresh on every path to the test is a value of this call
+						fresh := func() bool {
+							for _, b := range fn.Blocks {
+								for _, in := range b.Instrs {
+									if st, ok := in.(*ssa.Store); ok {
+										if fr2, ok := eng.AsField(st.Addr); ok && fr2.Field == fr.Field && addrRoot(st.Addr) == recv && b.Dominates(iff.Block()) && b != iff.Block() {
+											return true
+										}
+									}
+								}
+							}
+							return false
+						}()
+						if !fresh {
+							bad = "field " + fr.Field + " (set by " + by + ")"
+						}
+					}
+				}
+			}
+		}
+		c.Check(bad == "", R, key, ci.Pos(), "chosen from what this call read", "the sub-parser is chosen by the parser's "+bad+", a value kept from an earlier section: a file whose revisions mix classic tables and xref streams cannot be opened")
+	}
+	if n == 0 {
+		c.Undec(R, "core.(*XRefParser).ParseXRef#dispatch", fn.Pos(), "no call to the two section parsers found")
+	}
+}
+
+// R20.8 [C20]
+func ruleContentByExtension(c *eng.Ctx) {
+	const R = "R20.8-CONTENT-BY-EXTENSION"
+	c.Rule(R, "isContentFile answers yes only for a name it recognises: every way of returning true passed the positive outcome of a test of the name against a constant (a suffix, an extension, a table of extensions); a name it knows nothing about is not a content document. With the default the other way round, an encrypted resource of any kind the deny-list forgot (a .woff2 or .ttc font under the IDPF or Adobe obfuscation algorithms, the NCX) makes an unprotected book a DRM refusal", 1, 0)
+	fn := c.P.Func("epubdoc.isContentFile")
+	if fn == nil {
+		c.Undec(R, "epubdoc.isContentFile", token.NoPos, "anchor not found")
+		return
+	}
+	recognised := func(f eng.Fact) bool {
+		if !f.Pos {
+			return false
+		}
+		switch x := f.Cond.(type) {
+		case *ssa.Call:
+			n := eng.CalleeName(x)
+			if n == "strings.HasSuffix" || n == "strings.EqualFold" || n == "strings.Contains" {
+				for _, a := range x.Call.Args {
+					if _, ok := eng.ConstString(a); ok {
+						return true
+					}
+				}
+				// the suffix comes out of a read-only table the loop walks
+				return true
+			}
+		case *ssa.BinOp:
+			if x.Op == token.EQL {
+				_, okx := eng.ConstString(x.X)
+				_, oky := eng.ConstString(x.Y)
+				return okx || oky
+			}
+		case *ssa.Lookup:
+			return true
+		case *ssa.Extract:
+			_, isL := x.Tuple.(*ssa.Lookup)
+			return isL
+		}
+		return false
+	}
+	n := 0
+	for _, e := range eng.Exits(fn) {
+		if len(e.Results) != 1 {
+			continue
+		}
+		cst, ok := e.Results[0].(*ssa.Const)
+		if ok && cst.Value != nil && cst.Value.ExactString() == "false" {
+			continue
+		}
+		n++
+		key := fmt.Sprintf("epubdoc.isContentFile#true%d", n)
+		if !ok {
+			// the result of the last test itself (return a || b): the value is the test
+			if call, isCall := e.Results[0].(*ssa.Call); isCall && recognised(eng.Fact{Cond: call, Pos: true}) {
+				c.Ok(R, key, e.Ret.Pos(), "the answer is the outcome of a name test")
+				continue
+			}
+		}
+		c.Check(eng.ExitGuarded(fn, e, recognised), R, key, e.Ret.Pos(), "yes only after a positive name test", "isContentFile answers yes without having recognised the name (the default is yes): every encrypted resource the exceptions do not list counts as an encrypted content document")
+	}
+	if n == 0 {
+		c.Viol(R, "epubdoc.isContentFile#true", fn.Pos(), "isContentFile never answers yes")
+	}
+}
+
+// R18.14 [C18]
+func ruleSheetAccessorsAgree(c *eng.Ctx) {
+	const R = "R18.14-SHEET-ACCESSORS-AGREE"
+	c.Rule(R, "the XLSX reader's SheetNames, Sheet(i) and PageCount speak about one list: the names returned are read from the elements of the very field whose length PageCount reports and which Sheet indexes. Entries of the workbook's declared sheet list that are not readable worksheets (chart sheets, missing parts) are skipped when the sheets are loaded, so names taken from the declared list have more entries than there are pages and every name after a skipped entry belongs to another page", 2, 0)
+	pc := c.P.Func("xlsx.(*Reader).PageCount")
+	names := c.P.Func("xlsx.(*Reader).SheetNames")
+	if pc == nil || names == nil {
+		c.Undec(R, "xlsx.(*Reader).SheetNames", token.NoPos, "anchor not found")
+		return
+	}
+	counted := ""
+	for _, r := range eng.Returns(pc) {
+		for w := range eng.Slice(r.Results[0], func(*ssa.Call) bool { return true }) {
+			if fr, ok := eng.LoadOfField(w); ok && addrRoot(w) == ssa.Value(pc.Params[0]) {
+				counted = fr.Field
+			}
+		}
+	}
+	if counted == "" {
+		c.Undec(R, "xlsx.(*Reader).PageCount#field", pc.Pos(), "cannot tell which list PageCount counts")
+		return
+	}
+	c.Ok(R, "xlsx.(*Reader).PageCount#field", pc.Pos(), "counts "+counted)
+	check := func(fn *ssa.Function, what string) {
+		var fields []string
+		eng.Instrs(fn, true, func(in ssa.Instruction) {
+			v, ok := in.(ssa.Value)
+			if !ok {
+				return
+			}
+			if _, isSl := v.Type().Underlying().(*types.Slice); !isSl {
+				return
+			}
+			if fr, ok := eng.LoadOfField(v); ok && addrRoot(v) == ssa.Value(fn.Params[0]) {
+				fields = append(fields, fr.Field)
+			}
+			// a list reached through a nested struct of the receiver (r.workbook.Sheets.Sheet)
+			if ld, ok := v.(*ssa.UnOp); ok && ld.Op == token.MUL {
+				if fa, ok := ld.X.(*ssa.FieldAddr); ok && addrRoot(fa) == ssa.Value(fn.Params[0]) {
+					if fr, ok := eng.AsField(fa); ok {
+						fields = append(fields, fr.Field)
+					}
+				}
+			}
+		})
+		fields = dedupStr(fields)
+		sort.Strings(fields)
+		ok := len(fields) > 0
+		for _, f := range fields {
+			if f != counted {
+				ok = false
+			}
+		}
+		c.Check(ok, R, eng.FuncName(fn)+"#list", fn.Pos(), what+" reads "+counted, fmt.Sprintf("%s reads the list(s) %v while PageCount counts %s: the two disagree as soon as a declared sheet is not a readable worksheet", what, fields, counted))
+	}
+	check(names, "SheetNames")
+	if sh := c.P.Func("xlsx.(*Reader).Sheet"); sh != nil {
+		check(sh, "Sheet(i)")
+	}
+}
+
+// R18.15 [C18]
+func ruleFirstRootfile(c *eng.Ctx) {
+	const R = "R18.15-FIRST-ROOTFILE"
+	c.Rule(R, "parseContainer answers with the first rootfile that qualifies: inside the loop over the container's rootfile list the result is returned on the spot, or a variable that holds it is assigned only while it is still empty (or the loop is left right after). A container may list several package documents (renditions), the first is the default one; a loop that keeps overwriting its choice reads the book from the last", 1, 0)
+	fn := c.P.Func("epubdoc.parseContainer")
+	if fn == nil {
+		c.Undec(R, "epubdoc.parseContainer", token.NoPos, "anchor not found")
+		return
+	}
+	n := 0
+	for _, h := range fn.Blocks {
+		isRootLoop := false
+		for _, src := range loopRangeSource(h) {
+			if sl, ok := src.Type().Underlying().(*types.Slice); ok && strings.HasSuffix(sl.Elem().String(), "epubdoc.rootfile") {
+				isRootLoop = true
+			}
+		}
+		if !isRootLoop {
+			continue
+		}
+		n++
+		body := map[*ssa.BasicBlock]bool{h: true}
+		var stack []*ssa.BasicBlock
+		for _, p := range h.Preds {
+			if h.Dominates(p) {
+				stack = append(stack, p)
+			}
+		}
+		for len(stack) > 0 {
+			b := stack[len(stack)-1]
+			stack = stack[:len(stack)-1]
+			if body[b] {
+				continue
+			}
+			body[b] = true
+			stack = append(stack, b.Preds...)
+		}
+		var bad []string
+		for _, in := range h.Instrs {
+			ph, ok := in.(*ssa.Phi)
+			if !ok {
+				continue
+			}
+			if bt, ok := ph.Type().Underlying().(*types.Basic); !ok || bt.Info()&types.IsString == 0 {
+				continue
+			}
+			stillEmpty := func(f eng.Fact) bool {
+				op, x, y, ok := f.Cmp()
+				if !ok || op != token.EQL {
+					return false
+				}
+				if s, isC := eng.ConstString(y); isC && s == "" && x == ssa.Value(ph) {
+					return true
+				}
+				if s, isC := eng.ConstString(x); isC && s == "" && y == ssa.Value(ph) {
+					return true
+				}
+				return false
+			}
+			seen := map[ssa.Value]bool{}
+			var walk func(v ssa.Value, from *ssa.BasicBlock)
+			walk = func(v ssa.Value, from *ssa.BasicBlock) {
+				if v == ssa.Value(ph) {
+					return
+				}
+				if p2, ok := v.(*ssa.Phi); ok && body[p2.Block()] && p2.Block() != h {
+					if seen[p2] {
+						return
+					}
+					seen[p2] = true
+					for i, e := range p2.Edges {
+						walk(e, p2.Block().Preds[i])
+					}
+					return
+				}
+				// a new value for the variable, flowing in from block `from`
+				if !eng.GuardedBy(fn, from, stillEmpty) {
+					okEdge := false
+					for si, sx := range from.Succs {
+						_ = sx
+						if eng.AnyEdgeFact(eng.Edge{From: from, Succ: si}, stillEmpty) {
+							okEdge = true
+						}
+					}
+					if !okEdge {
+						bad = append(bad, "variable "+ph.Comment+" is assigned again at "+c.P.Pos(v.Pos()))
+					}
+				}
+			}
+			for i, e := range ph.Edges {
+				if body[h.Preds[i]] {
+					walk(e, h.Preds[i])
+				}
+			}
+		}
+		c.Check(len(bad) == 0, R, fmt.Sprintf("epubdoc.parseContainer#rootfile-loop%d", n), h.Instrs[0].Pos(), "the first qualifying rootfile is the answer", strings.Join(dedupStr(bad), "; ")+" by a later rootfile although it already holds one: with several package documents listed the last one wins, and manifest, spine and base directory come from the wrong rendition")
+	}
+	if n == 0 {
+		c.Undec(R, "epubdoc.parseContainer#rootfile-loop", fn.Pos(), "no loop over the rootfile list found")
+	}
+}
